@@ -486,6 +486,13 @@ func ReplayWitnesses(t *testing.T) {
 		st.Evaluations++
 		mu.Unlock()
 		if f != nil {
+			if oe, ok := openSigs[f.Sig]; ok {
+				// the witness now trips over a different, listed open finding: not a regression of this one
+				mu.Lock()
+				res.KnownSeen[f.Sig] = oe.What
+				mu.Unlock()
+				continue
+			}
 			recordViolation("regression", f, p)
 			t.Errorf("regression: fixed finding %s is back: %s: %s", e.Signature, f.Sig, f.What)
 		}
